@@ -709,20 +709,25 @@ def cartposlos2geocentric(x, y, z, dx, dy, dz, ppc=None,
         aa[noz] = 0.
         aa[pre] = np.rad2deg(np.arctan2(dy[pre], dx[pre]))
 
-        dlat = (- sinlat[non] * coslon[non] / r[non] * dx[non] + coslat[non] /
-                r[non] * dz[non] - sinlat[non] * sinlon[non] / r[non] * dy[non]
-                )
-        dlon = (- sinlon[non] / coslat[non] / r[non] * dx[non] + coslon[non] /
-                coslat[non] / r[non] * dy[non])
+        # dlat and dlon keep the full shape of the input (boolean indexing
+        # flattens, which breaks the masks below for n-d arrays)
+        dlat = np.zeros(za.shape)
+        dlon = np.zeros(za.shape)
+        dlat[non] = (
+            - sinlat[non] * coslon[non] / r[non] * dx[non] + coslat[non] /
+            r[non] * dz[non] - sinlat[non] * sinlon[non] / r[non] * dy[non])
+        dlon[non] = (
+            - sinlon[non] / coslat[non] / r[non] * dx[non] + coslon[non] /
+            coslat[non] / r[non] * dy[non])
         aa[non] = (np.rad2deg(np.arccos(r[non] *
-                   dlat / np.sin(np.deg2rad(za[non])))))
+                   dlat[non] / np.sin(np.deg2rad(za[non])))))
 
-        fix = np.logical_or(np.isnan(aa), ~np.isreal(aa))
+        fix = np.logical_and(non, np.logical_or(np.isnan(aa), ~np.isreal(aa)))
 
         aa[np.logical_and(fix, dlat >= 0)] = 0
         aa[np.logical_and(fix, dlat < 0)] = 180
 
-        aa[np.logical_and(~fix, dlon < 0)] *= -1
+        aa[non & ~fix & (dlon < 0)] *= -1
 
     return r, lat, lon, za, aa
 
